@@ -355,7 +355,7 @@ pub fn schedule_p13_b10() {
 // Specification: with acc = identity on entry (what `msm_parallel`, the only caller, passes; `msm_serial` doubles
 // `acc` c * number_of_windows times, so it is NOT additive in a non-identity `acc`),
 //     acc_out == sum_i scalar_i * base_i,       scalar_i * base_i by plain MSB-first double-and-add (`ref_mul`).
-use crate::toy::msm::{Dlog, Elem, Lin, ToyScalar, E139, E139_MULTIPLES, F163, F16777213, F65521, GA, GJ};
+use crate::toy::msm::{looked, reset_looked, Dlog, Elem, Lin, ToyScalar, Zp, E139, E139_MULTIPLES, F163, F16777213, F65521, GA, GJ};
 use group::Group;
 use midnight_curves::msm::msm_serial;
 
@@ -387,7 +387,10 @@ fn msm_serial_is_sum<E: Elem, const N: usize>(bases: [GA<E>; N]) {
         i += 1;
     }
     let mut acc = GJ::<E>::identity();
+    reset_looked();
     msm_serial::<GA<E>>(&sc, &bases, &mut acc);
+    // `Zp` only: the transfer argument needs that msm_serial never inspected a point (other groups never count)
+    assert!(looked() == 0, "msm_serial inspected a point (is_identity / == / coordinates): the integer-weight argument does not apply");
     let mut want = E::id();
     let mut i = 0;
     while i < N {
@@ -521,6 +524,74 @@ pub fn msm_serial_dlog163_n3() {
     vcover!(bases[1].0 .0 == 0 && bases[0].0 .0 != 0, "an identity base");
     msm_serial_is_sum::<Dlog<F163>, 3>(bases)
 }
+
+/// integer weights in -2..=2 as bases (see `Zp`): unit vectors, the identity, repeated and opposite bases are all among them
+fn msm_serial_integer_weights<S: ToyScalar, const N: usize>() {
+    let mut bases = [GA::new(Zp::<S>::w(0)); N];
+    let mut i = 0;
+    let mut unit = 0;
+    while i < N {
+        let w: i8 = any();
+        assume(w >= -2 && w <= 2);
+        bases[i] = GA::new(Zp::<S>::w(w as i32));
+        unit += (w != 0) as usize;
+        i += 1;
+    }
+    vcover!(unit == 1 && bases[N - 1].0 .0 == 1, "unit vector: only the last base counts");
+    vcover!(unit == N, "no identity base");
+    vcover!(N < 2 || (bases[0].0 .0 == bases[1].0 .0 && bases[0].0 .0 != 0), "repeated base");
+    vcover!(N < 2 || (bases[0].0 .0 == -bases[1].0 .0 && bases[0].0 .0 != 0), "opposite bases");
+    msm_serial_is_sum::<Zp<S>, N>(bases)
+}
+/// unit vectors only: base j (symbolic) is the formal point P, all others are the identity. By the argument at `Zp`
+/// this already fixes every coefficient c_j = s_j; for the solver each case is a problem in ONE scalar.
+fn msm_serial_unit_weights<S: ToyScalar, const N: usize>() {
+    let j: usize = any();
+    assume(j < N);
+    let mut bases = [GA::new(Zp::<S>::w(0)); N];
+    let mut i = 0;
+    while i < N {
+        bases[i] = GA::new(Zp::<S>::w((i == j) as i32));
+        i += 1;
+    }
+    vcover!(j == 0);
+    vcover!(j == N - 1);
+    msm_serial_is_sum::<Zp<S>, N>(bases)
+}
+macro_rules! msm_unit_harness {
+    ($($name:ident = ($S:ty, $n:expr, $unwind:expr)),*) => {$(
+        #[cfg_attr(kani, kani::proof)]
+        #[cfg_attr(kani, kani::unwind($unwind))]
+        pub fn $name() {
+            msm_serial_unit_weights::<$S, $n>()
+        }
+    )*};
+}
+msm_unit_harness!(
+    msm_serial_unit_q163_n2 = (F163, 2, 11), msm_serial_unit_q163_n3 = (F163, 3, 11), msm_serial_unit_q163_n4 = (F163, 4, 11),
+    msm_serial_unit_q65521_n1 = (F65521, 1, 19), msm_serial_unit_q65521_n2 = (F65521, 2, 19), msm_serial_unit_q65521_n3 = (F65521, 3, 19),
+    msm_serial_unit_q65521_n4 = (F65521, 4, 19),
+    msm_serial_unit_q16777213_n1 = (F16777213, 1, 27), msm_serial_unit_q16777213_n2 = (F16777213, 2, 27),
+    msm_serial_unit_q16777213_n3 = (F16777213, 3, 27), msm_serial_unit_q16777213_n4 = (F16777213, 4, 27)
+);
+macro_rules! msm_weights_harness {
+    ($($name:ident = ($S:ty, $n:expr, $unwind:expr)),*) => {$(
+        #[cfg_attr(kani, kani::proof)]
+        #[cfg_attr(kani, kani::unwind($unwind))]
+        pub fn $name() {
+            msm_serial_integer_weights::<$S, $n>()
+        }
+    )*};
+}
+// unwind = largest window count + 2: 8b/c + 1 windows, c = 1 for n < 4, c = 3 for n = 4
+msm_weights_harness!(
+    msm_serial_zp_q163_n1 = (F163, 1, 11), msm_serial_zp_q163_n2 = (F163, 2, 11), msm_serial_zp_q163_n3 = (F163, 3, 11),
+    msm_serial_zp_q163_n4 = (F163, 4, 11),
+    msm_serial_zp_q65521_n1 = (F65521, 1, 19), msm_serial_zp_q65521_n2 = (F65521, 2, 19), msm_serial_zp_q65521_n3 = (F65521, 3, 19),
+    msm_serial_zp_q65521_n4 = (F65521, 4, 19),
+    msm_serial_zp_q16777213_n1 = (F16777213, 1, 27), msm_serial_zp_q16777213_n2 = (F16777213, 2, 27),
+    msm_serial_zp_q16777213_n3 = (F16777213, 3, 27), msm_serial_zp_q16777213_n4 = (F16777213, 4, 27)
+);
 
 /// N independent formal points (free module of rank N over the scalar field S)
 fn msm_serial_generic_points<S: ToyScalar, const N: usize>() {
